@@ -438,6 +438,10 @@ func roundFractionalSeconds(val string, idx int, kind TimezoneKind) (Timestamp, 
 		}
 
 		timeValue = timeValue.Add(time.Second)
+		if timeValue.Year() > 9999 {
+			// The carry left the years a timestamp can have.
+			return invalidTimestamp(val)
+		}
 		return NewTimestampWithFractionalSeconds(timeValue, TimestampPrecisionNanosecond, kind, 9), err
 	}
 
